@@ -20,7 +20,8 @@ RULE = (
     "with kwargs wrapped in autograd.checkpoint - value bitwise equal; reverse-mode derivatives of order 1-3 (incl. mixed partials "
     "between checkpointed arguments) equal to the un-wrapped function to 1e-12. Non-trivial = >= 2 differentiated positions at >= 2 "
     "distinct trace levels, or a None / argnums= / 'same' registration; checkpoint at order >= 2; distinct by configuration."
-    ' Positional-style defvjp_argnums / defjvp_argnums rules; checkpointed blocks closing over traced values (same level: open finding).'
+    ' Positional-style defvjp_argnums / defjvp_argnums rules; checkpointed blocks closing over traced values (same level: open finding) or over a loop variable / a list that changes after the call.'
+    ' identity_rule: a primitive linear in its arguments whose rules return the incoming (co)tangent itself, several arguments traced at one level, closed-form first and second derivatives, caller arrays unchanged.'
 )
 
 VJP_APIS = ["defvjp", "defvjp_none", "defvjp_argnums_kw", "defvjp_argnum", "defvjp_argnums", "no_vjp", "defvjp_argnums_positional"]
@@ -439,7 +440,25 @@ def checkpoint_body(c):
 
     g_plain, g_ck = compose(f), compose(ck)
     closure = c.int(0, 11)
-    closure = closure if closure <= 2 else 0
+    closure = closure if closure <= 3 else 0
+    if closure == 3:
+        # checkpointed blocks created in a loop, each closing over the LOOP VARIABLE (and a list that grows afterwards): every block is the
+        # function it was when it was applied
+        Ks = [0.7, -1.3, 0.4]
+
+        def g_loop(x, wrap):
+            h = x * x + 0.25
+            later = [1.0]
+            for i in range(c_loop_n):
+                blk = (lambda v_: anp.tanh(v_ * Ks[i] * W[0]) + v_ * len(later))
+                blk = autograd.checkpoint(blk) if wrap else blk
+                h = blk(h)
+            i = 0  # noqa: F841  (the loop variable lives on, and changes, after the blocks were applied)
+            later.extend([2.0, 3.0])
+            return anp.sum(h * anp.sin(x))
+
+        c_loop_n = c.int(2, 3)
+        g_plain, g_ck = (lambda x: g_loop(x, False)), (lambda x: g_loop(x, True))
     if closure == 1:
         # the checkpointed function is defined INSIDE the differentiated function and closes over a value traced at the same level (a block
         # that closes over the parameters being differentiated, applied to an activation that depends on them too)
@@ -464,7 +483,7 @@ def checkpoint_body(c):
         g_plain, g_ck = (lambda x: g_outer(x, False)), (lambda x: g_outer(x, True))
     sample = {"nargs": nargs, "form": form, "scale": kw_scale, "n": n, "vseed": vseed, "closure_over_traced_value": closure}
     c.features.update(closure=closure)
-    bucket = lambda k: f"C17|checkpoint|{('', 'closure|', 'outer_closure|')[closure]}{k}"
+    bucket = lambda k: f"C17|checkpoint|{('', 'closure|', 'outer_closure|', 'loop_closure|')[closure]}{k}"
     u = values.direction(vseed, (n,), 4)
     v = values.direction(vseed, (n,), 5)
     try:
@@ -499,8 +518,92 @@ def checkpoint_body(c):
     return ok(nontrivial=True, key=json.dumps([nargs, form, kw_scale, n]), labels=[f"nargs={nargs}", f"form={form}", "kw" if kw_scale != 1.0 else "nokw"], sample=sample)
 
 
+def identity_rule_body(c):
+    """A user primitive lin(a, b, c) = k0 a + k1 b + k2 c on arrays whose rules hand back the incoming tangent / cotangent ITSELF where the
+    coefficient is 1 (the natural rule of a function linear in an argument), with two or three arguments traced at the same level and the
+    first one used again afterwards: f(x) = sum(lin(x, sin x, x^2) * x * W).  Closed forms for first and second derivatives; the caller's
+    tangent / cotangent arrays are unchanged."""
+    import autograd
+    import autograd.numpy as anp
+    from autograd.extend import defjvp, defjvp_argnum, defjvp_argnums, defvjp, defvjp_argnum, primitive
+
+    vseed = c.seed()
+    n = c.int(1, 4)
+    ks = [[1.0, 2.0, -1.0][i] for i in c.perm(3)]
+    japi = c.choice(["defjvp_argnum", "defjvp", "defjvp_argnums"])
+    vapi = c.choice(["defvjp_argnum", "defvjp"])
+    how = c.choice(["jvp", "jvp_twice", "jvp_of_grad", "grad", "grad_of_grad", "vjp_twice"])
+    (x0, W, v, u), _ = values.generic(vseed, [(n,), (n,), (n,), (n,)], 0.3, 1.4)
+    sample = {"n": n, "ks": ks, "japi": japi, "vapi": vapi, "how": how, "vseed": vseed}
+    c.features.update(japi=japi, vapi=vapi, how=how, identity_first=ks[0] == 1.0)
+    bucket = lambda k: f"C17|identity_rule|{k}"
+
+    @primitive
+    def lin(a, b, cc):
+        return ks[0] * a + ks[1] * b + ks[2] * cc
+
+    scale = lambda i, g: g if ks[i] == 1.0 else ks[i] * g
+    if japi == "defjvp_argnum":
+        defjvp_argnum(lin, lambda argnum, g, ans, args, kwargs: scale(argnum, g))
+    elif japi == "defjvp":
+        defjvp(lin, *[(lambda g, ans, a, b, cc, i=i: scale(i, g)) for i in range(3)])
+    else:
+        def jvps(argnums, gs, ans, args, kwargs):
+            tot = None
+            for i, g in zip(argnums, gs):
+                tot = scale(i, g) if tot is None else tot + scale(i, g)
+            return tot
+        defjvp_argnums(lin, jvps)
+    if vapi == "defvjp_argnum":
+        defvjp_argnum(lin, lambda argnum, ans, args, kwargs: lambda g: scale(argnum, g))
+    else:
+        defvjp(lin, *[(lambda ans, a, b, cc, i=i: lambda g: scale(i, g)) for i in range(3)])
+
+    def f(x):
+        return anp.sum(lin(x, anp.sin(x), x * x) * x * W)
+
+    L = ks[0] * x0 + ks[1] * onp.sin(x0) + ks[2] * x0 * x0
+    L1 = ks[0] + ks[1] * onp.cos(x0) + 2 * ks[2] * x0
+    L2 = -ks[1] * onp.sin(x0) + 2 * ks[2]
+    d1 = W * (L1 * x0 + L)
+    d2 = W * (L2 * x0 + 2 * L1)
+    v_before, u_before, x_before = v.copy(), u.copy(), x0.copy()
+    close = lambda a_, b_: onp.shape(a_) == onp.shape(b_) and onp.allclose(onp.asarray(a_), b_, rtol=1e-12, atol=1e-13)
+    try:
+        if how == "jvp":
+            got, want = autograd.make_jvp(f)(x0)(v)[1], onp.sum(d1 * v)
+        elif how == "jvp_twice":
+            op = autograd.make_jvp(f)(x0)
+            first = op(v)[1]
+            got, want = op(v)[1], onp.sum(d1 * v_before)
+            if not close(first, want):
+                got = first
+        elif how == "jvp_of_grad":
+            got, want = autograd.make_jvp(autograd.grad(f))(x0)(v)[1], d2 * v
+        elif how == "grad":
+            got, want = autograd.grad(f)(x0), d1
+        elif how == "grad_of_grad":
+            got, want = autograd.grad(lambda x: anp.sum(autograd.grad(f)(x) * u))(x0), d2 * u
+        else:
+            # a vector-valued stage so that the caller's cotangent array reaches lin's rule
+            vj = autograd.make_vjp(lambda x: lin(x, anp.sin(x), x * x) * 1.0)(x0)[0]
+            vj(u)
+            got, want = vj(u), u_before * L1
+    except Exception as e:
+        if not from_autograd(e):
+            raise
+        return fail("unexpected_exception", describe_exc(e), bucket("exception"), sample=sample)
+    if not (onp.array_equal(v, v_before) and onp.array_equal(u, u_before) and onp.array_equal(x0, x_before)):
+        return fail("caller_array_changed", f"{how}: an array the caller passed in (point / tangent / cotangent) was modified", bucket("caller_array"), sample=sample)
+    if not close(got, want):
+        return fail("wrong_value", f"{how} through a primitive whose rules return their incoming (co)tangent where the coefficient is 1 (ks={ks}, {japi}/{vapi}): "
+                    f"{onp.asarray(got).tolist()} expected {onp.asarray(want).tolist()}", bucket(how), sample=sample)
+    return ok(nontrivial=True, key=json.dumps([n, ks, japi, vapi, how]), labels=["identity_rule", "how=" + how, "japi=" + japi], sample=sample)
+
+
 PROP = Prop("C17", [
     Test("primitives", prim_body, quick=8000, thorough=30000, shard_size=300),
     Test("none_space", none_space_body, quick=1500, thorough=5000, shard_size=100),
     Test("checkpoint", checkpoint_body, quick=800, thorough=3000, shard_size=50),
+    Test("identity_rule", identity_rule_body, quick=800, thorough=5000, shard_size=200),
 ], RULE, assumptions=["closed-form partials of the polynomial family; registration through the public autograd.extend API only"])
